@@ -809,6 +809,35 @@ def run_impl(case):
             infos = list(m.all_resources())
         except AssertionError:
             continue
+        # several listings of one map may be in flight at once (nested loops, zip): each is complete
+        try:
+            zipped = [(a_.resource, b_.resource) for a_, b_ in zip(m.all_resources(), m.all_resources())]
+            nested = 0
+            for a_ in m.all_resources():
+                nested += sum(1 for _ in m.all_resources())
+                for w_, _n, _r in m.windows():
+                    nested += 0 * sum(1 for _ in w_.all_resources())      # … also of a window while its parent's is suspended
+                    break
+                break
+            if len(zipped) != len(infos) or any(a_ is not b_ for a_, b_ in zipped) or (infos and nested != len(infos)):
+                fails.append(("C03", f"map {h}: two listings of all_resources() consumed in lock step / nested give {len(zipped)} / {nested} entries, "
+                                     f"one listing alone gives {len(infos)}", len(obs)))
+        except AssertionError:
+            pass
+        except RecursionError as ex:
+            fails.append(("C03", f"map {h}: a second all_resources() listing while one is being consumed raises RecursionError: {str(ex)[:80]}", len(obs)))
+        # a window's own MemoryMap object is not a resource: looking it up raises KeyError like any never-added object
+        for w_, _n, _r in list(m.windows())[:4]:
+            try:
+                f = m.find_resource(w_)
+                fails.append(("C03", f"map {h}: find_resource(<the MemoryMap of one of its windows>) returns {tuple(map(tuple, f.path))} at {f.start}..{f.end}; "
+                                     f"all_resources() reports no such resource", len(obs)))
+            except KeyError:
+                pass
+            except AssertionError:
+                pass
+            except Exception as ex:
+                fails.append(("C03", f"map {h}: find_resource(<the MemoryMap of one of its windows>) raises {type(ex).__name__} instead of KeyError", len(obs)))
         firsts = {}
         for i in infos:
             firsts.setdefault(id(i.resource), i)
